@@ -1934,3 +1934,102 @@ Proof.
   rewrite (wrap_id t raw v' Hni). reflexivity.
 Qed.
 End Proofs.
+
+(* ------------------------------------------------------------------ *)
+(** * 9. The property in full, and the constructs the code does not bring back *)
+
+Definition icfg0 : icfg := mkCfg true false OEmpty [].      (* configuration.New(): snake case, no recursion support, omit empty *)
+
+(* marshal to CBE, decode, validate, build: an equal value comes back *)
+Definition roundtrip_ok (lt : libtabs) (t : gtype) (v : gval) : Prop :=
+  exists v', unmarshal_events lt default_bcfg t (cbe_events (iterate icfg0 (Some v))) = TOk v' /\ veq v v' = true.
+
+(* every value of every type built from the supported kinds *)
+Definition roundtrip_full : Prop := forall lt t v, has_type t v = true -> roundtrip_ok lt t v.
+
+Definition fails (t : gtype) (v : gval) : Prop := has_type t v = true /\ ~ roundtrip_ok no_lib t v.
+
+Ltac refute :=
+  split; [vm_compute; reflexivity |
+          intros (v' & H & Hv); vm_compute in H;
+          first [discriminate H | injection H as <-; vm_compute in Hv; discriminate Hv]].
+
+Definition fA : finfo := mkF [65] true false ODefault 9223372036854775807%Z.
+
+Definition w_int_slice := (TSlice (TInt W64), VNum SSlice AI64 [1; -2]%Z).
+Definition w_uint_array := (TArr 2 (TUint W64), VNum SArr AU64 [1; 2]%Z).
+Definition w_bool_slice := (TSlice TBool, VBools SSlice [true; false; true]).
+Definition w_named_elem_slice := (TNumSlice AI64 false, VNum SSlice AI64 [1; 2]%Z).
+Definition w_ptr_slice := (TPtr (TSlice TString), VPtr 1 (VSlice 2 [VString [120]])).
+Definition w_ptr_map := (TPtr (TMap TString (TInt W64)), VPtr 1 (VMap 2 [(VString [97], VInt 1)])).
+Definition w_ptr_media := (TPtr TMedia, VPtr 1 (VMedia false [97; 47; 98] [1; 2])).
+Definition w_ptr_ptr_struct := (TPtr (TPtr (TStruct 1 [])), VPtr 1 (VPtr 2 (VStruct 1 []))).
+Definition w_ptr_nil_ptr := (TPtr (TPtr (TInt W64)), VPtr 1 VNilPtr).
+Definition w_ptr_nil_slice := (TPtr (TSlice TString), VPtr 1 VNilSlice).
+Definition w_ptr_zero_ctime := (TPtr TCTime, VOPtr (VTime true zero_ctime_text)).
+Definition w_edge := (TEdge, VEdge (VIface (VString [97])) (VIface (VInt 1)) (VIface (VString [98]))).
+Definition w_nil_map_int_key := (TMap (TInt W64) TString, VNilMap).
+Definition w_nil_struct_slice := (TSlice (TStruct 1 [(fA, TInt W64)]), VNilSlice).
+Definition w_nil_time_slice := (TSlice TTime, VNilSlice).
+
+Lemma int_slice_fails : fails (fst w_int_slice) (snd w_int_slice). Proof. refute. Qed.
+Lemma uint_array_fails : fails (fst w_uint_array) (snd w_uint_array). Proof. refute. Qed.
+Lemma bool_slice_fails : fails (fst w_bool_slice) (snd w_bool_slice). Proof. refute. Qed.
+Lemma named_elem_slice_fails : fails (fst w_named_elem_slice) (snd w_named_elem_slice). Proof. refute. Qed.
+Lemma ptr_slice_fails : fails (fst w_ptr_slice) (snd w_ptr_slice). Proof. refute. Qed.
+Lemma ptr_map_fails : fails (fst w_ptr_map) (snd w_ptr_map). Proof. refute. Qed.
+Lemma ptr_media_fails : fails (fst w_ptr_media) (snd w_ptr_media). Proof. refute. Qed.
+Lemma ptr_ptr_struct_fails : fails (fst w_ptr_ptr_struct) (snd w_ptr_ptr_struct). Proof. refute. Qed.
+Lemma ptr_nil_ptr_fails : fails (fst w_ptr_nil_ptr) (snd w_ptr_nil_ptr). Proof. refute. Qed.
+Lemma ptr_nil_slice_fails : fails (fst w_ptr_nil_slice) (snd w_ptr_nil_slice). Proof. refute. Qed.
+Lemma ptr_zero_ctime_fails : fails (fst w_ptr_zero_ctime) (snd w_ptr_zero_ctime). Proof. refute. Qed.
+Lemma edge_fails : fails (fst w_edge) (snd w_edge). Proof. refute. Qed.
+Lemma nil_map_int_key_fails : fails (fst w_nil_map_int_key) (snd w_nil_map_int_key). Proof. refute. Qed.
+Lemma nil_struct_slice_fails : fails (fst w_nil_struct_slice) (snd w_nil_struct_slice). Proof. refute. Qed.
+Lemma nil_time_slice_fails : fails (fst w_nil_time_slice) (snd w_nil_time_slice). Proof. refute. Qed.
+
+Lemma roundtrip_full_false : ~ roundtrip_full.
+Proof. intro H. destruct int_slice_fails as [Ht Hf]. apply Hf. apply H. exact Ht. Qed.
+
+(* ------------------------------------------------------------------ *)
+(** * 10. A value of the fragment *)
+
+Definition mkf (name : bytes) (o : omit) : finfo := mkF name true false o 9223372036854775807%Z.
+Definition ex_inner_t : gtype := TStruct 2 [(mkf [88] ODefault, TInt W8); (mkf [89; 122] ODefault, TSlice TString)].
+Definition ex_type : gtype :=
+  TStruct 1
+    [(mkf [78; 117; 109] ODefault, TInt W64);                            (* Num int64 *)
+     (mkf [85; 115; 101; 114; 73; 68] ODefault, TString);                (* UserID string *)
+     (mkf [87; 111; 114; 100; 115] ODefault, TNumSlice AU16 true);       (* Words []uint16 *)
+     (mkf [76] ODefault, TSlice (TSlice TString));                       (* L [][]string *)
+     (mkf [77] ODefault, TMap TString (TInt W8));                        (* M map[string]int8 *)
+     (mkf [80] ODefault, TPtr (TInt W32));                               (* P *int32 *)
+     (mkf [69] ODefault, TSlice TString);                                (* E []string, empty: omitted *)
+     (mkf [73; 110] ONever, TPtr ex_inner_t);                            (* In *inner *)
+     (mkf [84] ODefault, TTime); (mkf [85] ODefault, TPUrl); (mkf [66] ODefault, TPBigInt);
+     (mkf [70] ODefault, TF64); (mkf [71] ODefault, TNumArr AF32 2); (mkf [72] OZero, TUint W8)].
+Definition ex_value : gval :=
+  VStruct 1
+    [(mkf [78; 117; 109] ODefault, VInt (-9223372036854775808));
+     (mkf [85; 115; 101; 114; 73; 68] ODefault, VString (repeat 97 20));
+     (mkf [87; 111; 114; 100; 115] ODefault, VNum SSlice AU16 (repeat 65535%Z 17));
+     (mkf [76] ODefault, VSlice 1 [VSlice 2 [VString [97]]; VNilSlice]);
+     (mkf [77] ODefault, VMap 3 [(VString [107], VInt (-128)); (VString [], VInt 127)]);
+     (mkf [80] ODefault, VPtr 4 (VInt 7));
+     (mkf [69] ODefault, VSlice 5 []);
+     (mkf [73; 110] ONever, VPtr 6 (VStruct 2 [(mkf [88] ODefault, VInt 0); (mkf [89; 122] ODefault, VSlice 7 [VString [120]])]));
+     (mkf [84] ODefault, VTime false [50; 48; 50; 48; 45; 48; 49; 45; 48; 50; 47; 48; 51; 58; 48; 52; 58; 48; 53]);
+     (mkf [85] ODefault, VOPtr (VUrl false [104; 116; 116; 112; 58; 47; 47; 120]));
+     (mkf [66] ODefault, VOPtr (VBigInt false (-18446744073709551617)));
+     (mkf [70] ODefault, VF64 0x7ff8000000000001);
+     (mkf [71] ODefault, VNum SArr AF32 [0x7fc00000; 0x3fc00000]%Z);
+     (mkf [72] OZero, VUint 0)].
+
+Definition idlib (b : bytes) : option bytes := Some b.
+
+Lemma ex_typed : has_type ex_type ex_value = true. Proof. vm_compute. reflexivity. Qed.
+Lemma ex_supported : sup idlib idlib default_bcfg icfg0 ex_type ex_value = true. Proof. vm_compute. reflexivity. Qed.
+Lemma ex_rebuilt :
+  exists v', build_typed idlib idlib (fun _ => None) (fun _ => None) default_bcfg ex_type (cbe_events (iterate icfg0 (Some ex_value))) = TOk v'
+             /\ veq ex_value v' = true /\ (40 < length (cbe_events (iterate icfg0 (Some ex_value))))%nat.
+Proof. eexists. split; [vm_compute; reflexivity | split; [vm_compute; reflexivity | vm_compute; lia]]. Qed.
